@@ -13,6 +13,7 @@
 #include "../../../harness/common.hh"
 
 #include <fstream>
+#include <functional>
 #include <map>
 #include <memory>
 
@@ -152,6 +153,20 @@ Propagation do_propagate(FieldT&& field,
     return propagate(step);
 }
 
+// a propagator kept alive across calls (the field functor it references lives
+// as long as the returned callable)
+template<template<class> class StepperT, class FieldT>
+std::function<Propagation(real_type)> make_shared_prop(FieldT field,
+                                                       FieldDriverOptions const& o,
+                                                       ParticleTrackView const& particle,
+                                                       OrangeTrackView& geo)
+{
+    auto fp = std::make_shared<FieldT>(std::move(field));
+    using P = decltype(make_mag_field_propagator<StepperT>(*fp, o, particle, geo));
+    auto pp = std::make_shared<P>(make_mag_field_propagator<StepperT>(*fp, o, particle, geo));
+    return [fp, pp](real_type step) { return (*pp)(step); };
+}
+
 void run_e2e(World& w, std::istream& is)
 {
     std::string gname;
@@ -181,6 +196,14 @@ void run_e2e(World& w, std::istream& is)
     std::vector<double> steps(ncalls);
     for (auto& s : steps)
         s = rd(is);
+    // reuse = 1: ONE propagator object serves all the calls of the case (its
+    // internal state persists); 0: a fresh propagator per call
+    int reuse = 0;
+    {
+        std::string tok;
+        if (is >> tok)
+            reuse = std::atoi(tok.c_str());
+    }
 
     std::ostringstream os;
     try
@@ -216,26 +239,31 @@ void run_e2e(World& w, std::istream& is)
         double pmag = value_as<units::MevMomentum>(particle.momentum());
         os << "E ok " << hex(lorentz_coeff(q)) << ' ' << hex(pmag) << " S " << geo.pos() << ' '
            << geo.dir() << ' ' << geo.is_on_boundary() << ' ' << geo.volume_id().unchecked_get();
+        auto make = [&]() -> std::function<Propagation(real_type)> {
+            if (fkind == 0 && skind == 0)
+                return make_shared_prop<CountDP>(UniformField{b}, o, particle, geo);
+            if (fkind == 0 && skind == 1)
+                return make_shared_prop<CountRK>(UniformField{b}, o, particle, geo);
+            if (fkind == 1 && skind == 0)
+                return make_shared_prop<CountDP>(UniformZField{b[2]}, o, particle, geo);
+            if (fkind == 1 && skind == 1)
+                return make_shared_prop<CountRK>(UniformZField{b[2]}, o, particle, geo);
+            if (fkind == 1 && skind == 2)
+                return make_shared_prop<CountZH>(UniformZField{b[2]}, o, particle, geo);
+            if (fkind == 2 && skind == 0)
+                return make_shared_prop<CountDP>(RZMapField{w.rzmap->host_ref()}, o, particle, geo);
+            if (fkind == 2 && skind == 1)
+                return make_shared_prop<CountRK>(RZMapField{w.rzmap->host_ref()}, o, particle, geo);
+            throw std::runtime_error("bad field/stepper combination");
+        };
+        std::function<Propagation(real_type)> propagate;
         for (double step : steps)
         {
             Propagation r;
             g_nsteps = 0;
-            if (fkind == 0 && skind == 0)
-                r = do_propagate<CountDP>(UniformField{b}, o, particle, geo, step);
-            else if (fkind == 0 && skind == 1)
-                r = do_propagate<CountRK>(UniformField{b}, o, particle, geo, step);
-            else if (fkind == 1 && skind == 0)
-                r = do_propagate<CountDP>(UniformZField{b[2]}, o, particle, geo, step);
-            else if (fkind == 1 && skind == 1)
-                r = do_propagate<CountRK>(UniformZField{b[2]}, o, particle, geo, step);
-            else if (fkind == 1 && skind == 2)
-                r = do_propagate<CountZH>(UniformZField{b[2]}, o, particle, geo, step);
-            else if (fkind == 2 && skind == 0)
-                r = do_propagate<CountDP>(RZMapField{w.rzmap->host_ref()}, o, particle, geo, step);
-            else if (fkind == 2 && skind == 1)
-                r = do_propagate<CountRK>(RZMapField{w.rzmap->host_ref()}, o, particle, geo, step);
-            else
-                throw std::runtime_error("bad field/stepper combination");
+            if (!reuse || !propagate)
+                propagate = make();
+            r = propagate(step);
 
             long fresh = -1;
             double fsafety = 0;
